@@ -10,9 +10,11 @@ def site(x):
     return getattr(x, "span", None) or (x if isinstance(x, str) else "")
 
 
-def exclusive_regions(body, targets):
-    """For switch targets: blocks reachable from exactly one target (the 'arm' of that target)."""
-    reach = {t: body.reachable(t) for t in set(targets)}
+def exclusive_regions(body, targets, switch_bb=None):
+    """For switch targets: blocks reachable from exactly one target (the 'arm' of that target), not counting
+    paths that come back through the switch itself (loops)."""
+    avoid = [switch_bb] if switch_bb is not None else []
+    reach = {t: flow.reach_avoiding(body, [t], avoid) for t in set(targets)}
     count = {}
     for t, r in reach.items():
         for b in r:
@@ -119,7 +121,7 @@ def arm_map(body, switch_bb):
     if v is None:
         return None
     pl, adt, m, other, allv = v
-    regs = exclusive_regions(body, list(m.values()) + [other])
+    regs = exclusive_regions(body, list(m.values()) + [other], switch_bb)
     return {name: regs[t] for name, t in m.items()}, adt, pl, regs.get(other, set()), allv
 
 
